@@ -256,8 +256,42 @@ Proof.
   - unfold fs_write_schema, fs_mut. rewrite Hd, Hf. cbn. eexists. repeat split.
 Qed.
 
-(* Create again with the settings and descriptors the loaded schema already has.
-   Exact description of the outcome; two things are NOT the identity:
+Lemma start_flusher_noasync h m : h_mem h = Some m -> async_on m = false -> start_flusher h = h.
+Proof. intros Hm Ha. unfold start_flusher. rewrite Hm, Ha. reflexivity. Qed.
+
+(* Create again with the settings and descriptors the loaded schema already has: the exact step *)
+Lemma create_same_eq hk ls s m :
+  h_mem (s_h s) = Some m ->
+  step_fg hk ls s (OCreate (m_set m) (m_fields m)) =
+  (let h1 := start_flusher (s_h s) in
+   let m1 := {| m_set := m_set m; m_fields := m_fields m; m_shape := m_shape m; m_idx := m_idx m;
+                m_started := if async_on m then false else m_started m |} in
+   let h3 := if must_cache m then h1 else set_cache h1 [] in
+   let (e, w1) := save_schema (s_w s) m in
+   (mk (set_mem h3 (Some m1)) w1, RUnit (lift_e e))).
+Proof.
+  intros Hm. cbn [step_fg]. rewrite (db_schema_loaded ls (s_h s) (w_disk (s_w s)) m Hm).
+  destruct (start_flusher_mem (s_h s) m Hm) as [m' [Hm' [Eidx [Eset [Efld Eshp]]]]].
+  rewrite Hm'.
+  assert (Hst : async_on m = false -> m_started m' = m_started m).
+  { intros Ha. rewrite (start_flusher_noasync _ _ Hm Ha) in Hm'. congruence. }
+  unfold must_cache, async_on in *. rewrite Eset, Efld, Eshp, Eidx.
+  rewrite str_eqb_refl, fds_compatible_refl. cbn [negb].
+  assert (Hsv : forall w b, save_schema w {| m_set := {| st_cache := st_cache (m_set m); st_async := st_async (m_set m);
+                                                        st_compress := st_compress (m_set m); st_ext := st_ext (m_set m) |};
+                                             m_fields := m_fields m; m_shape := m_shape m; m_idx := m_idx m;
+                                             m_started := b |} = save_schema w m).
+  { intros w b. apply save_schema_sfile. unfold sfile_of. cbn. destruct (m_set m); reflexivity. }
+  destruct (st_async (m_set m)) as [[thr tmo]|] eqn:Ha; cbn [andb negb orb].
+  - rewrite orb_true_r. cbv zeta. rewrite Hsv.
+    destruct (save_schema (s_w s) m). rewrite orb_true_r.
+    destruct (m_set m); cbn in *; subst; reflexivity.
+  - rewrite orb_false_r, Hst by reflexivity. cbv zeta. rewrite Hsv.
+    destruct (save_schema (s_w s) m). rewrite orb_false_r.
+    destruct (m_set m); cbn in *; subst; reflexivity.
+Qed.
+
+(* Two things are NOT the identity:
    - m_started is reset when async writes are on (Schema.update installs a fresh Async value whose
      routineStarted is false): the next call starts a SECOND flusher, see the example below;
    - the cache is emptied when the schema does not maintain one. *)
@@ -272,45 +306,86 @@ Theorem create_idempotent_partial hk ls s m s' r :
   h_cancel (s_h s') = h_cancel (s_h s) /\
   r = RUnit (lift_e (fst (save_schema (s_w s) m))) /\ s_w s' = snd (save_schema (s_w s) m).
 Proof.
-  intros Hm H. cbn [step_fg] in H.
-  rewrite (db_schema_loaded ls (s_h s) (w_disk (s_w s)) m Hm) in H.
-  pose proof (start_flusher_stores (s_h s)) as [Sc [Sp [Ss Sn]]].
-  unfold start_flusher in *. rewrite Hm in *.
-  assert (Hsf : forall st0 b, sfile_of {| m_set := {| st_cache := st_cache (m_set m); st_async := st_async (m_set m);
-                                                     st_compress := st_compress (m_set m); st_ext := st_ext (m_set m) |};
-                                       m_fields := m_fields m; m_shape := m_shape m; m_idx := m_idx m; m_started := b |}
-                              = sfile_of m \/ st0 = st0).
-  { intros. left. unfold sfile_of. cbn. destruct (m_set m); reflexivity. }
-  assert (Hset : {| st_cache := st_cache (m_set m); st_async := st_async (m_set m);
-                    st_compress := st_compress (m_set m); st_ext := st_ext (m_set m) |} = m_set m)
-    by (destruct (m_set m); reflexivity).
-  unfold async_on, must_cache, async_on in *.
-  destruct (st_async (m_set m)) as [[thr tmo]|] eqn:Ha.
-  - (* async on *)
-    cbn [andb negb] in *.
-    destruct (negb (m_started m)) eqn:Hst; cbn [h_mem set_fl set_mem] in H.
-    + cbn [m_set m_fields] in H. rewrite str_eqb_refl, fds_compatible_refl in H. cbn [negb] in H.
-      rewrite Ha in H. cbn [andb negb] in H. rewrite Ha in H. cbn [m_set st_cache st_async orb] in H.
-      rewrite orb_true_r in H.
-      match type of H with context [save_schema ?w ?mm] =>
-        rewrite (save_schema_sfile w mm m) in H by (unfold sfile_of; cbn; rewrite Hset; reflexivity) end.
-      destruct (save_schema (s_w s) m) as [e1 w1]. inv H. cbn in *.
-      rewrite orb_true_r. split; [eexists; split; [reflexivity|]; cbn; rewrite Hset; auto 10|]. auto 10.
-    + cbn [m_set m_fields] in H. rewrite Hm in H. rewrite str_eqb_refl, fds_compatible_refl in H. cbn [negb] in H.
-      rewrite Ha in H. cbn [andb negb] in H. rewrite Ha in H. cbn [m_set st_cache st_async orb] in H.
-      rewrite orb_true_r in H.
-      match type of H with context [save_schema ?w ?mm] =>
-        rewrite (save_schema_sfile w mm m) in H by (unfold sfile_of; cbn; rewrite Hset; reflexivity) end.
-      destruct (save_schema (s_w s) m) as [e1 w1]. inv H. cbn in *.
-      rewrite orb_true_r. split; [eexists; split; [reflexivity|]; cbn; rewrite Hset; auto 10|]. auto 10.
-  - (* async off *)
-    cbn [andb] in *. rewrite Hm in H. rewrite str_eqb_refl, fds_compatible_refl in H. cbn [negb] in H.
-    rewrite Ha in H. cbn [andb negb] in H. rewrite Ha in H. cbn [m_set st_cache st_async] in H.
-    rewrite orb_false_r in *.
-    match type of H with context [save_schema ?w ?mm] =>
-      rewrite (save_schema_sfile w mm m) in H by (unfold sfile_of; cbn; rewrite Hset; reflexivity) end.
-    destruct (save_schema (s_w s) m) as [e1 w1]. inv H.
-    destruct (st_cache (m_set m)); cbn in *;
-      (split; [eexists; split; [reflexivity|]; cbn; rewrite Hset; auto 10|]); auto 10.
+  intros Hm H. rewrite (create_same_eq hk ls s m Hm) in H. cbv zeta in H.
+  destruct (start_flusher_stores (s_h s)) as [Sc [Sp [Ss Sn]]].
+  destruct (save_schema (s_w s) m) as [e1 w1]. inv H. cbn [s_h s_w mk fst snd].
+  split; [eexists; split; [reflexivity|]; cbn; auto 10|].
+  destruct (must_cache m); cbn; auto 10.
 Qed.
 Print Assumptions create_idempotent_partial.
+
+(* the requested statement, for states in which a collection without cache has an empty cache
+   (true of every state reached through the operations, not of an arbitrary record) and no
+   fault is armed *)
+Theorem create_idempotent hk ls s m s' r :
+  h_mem (s_h s) = Some m ->
+  (must_cache m = false -> h_cache (s_h s) = []) ->
+  w_fail (s_w s) = None -> w_dead (s_w s) = false ->
+  step_fg hk ls s (OCreate (m_set m) (m_fields m)) = (s', r) ->
+  r = RUnit (Ok tt) /\
+  (exists m1, h_mem (s_h s') = Some m1 /\ m_idx m1 = m_idx m /\ m_set m1 = m_set m /\
+              m_fields m1 = m_fields m /\ m_shape m1 = m_shape m) /\
+  h_cache (s_h s') = h_cache (s_h s) /\ h_pend (s_h s') = h_pend (s_h s) /\
+  d_schema (w_disk (s_w s')) = Some (SOk (sfile_of m)) /\
+  d_files (w_disk (s_w s')) = d_files (w_disk (s_w s)).
+Proof.
+  intros Hm Hc Hf Hd H.
+  destruct (create_idempotent_partial _ _ _ _ _ _ Hm H) as [[m1 [A1 [A2 [A3 [A4 [A5 _]]]]]] [B [C [_ [_ [D E]]]]]].
+  destruct (save_schema_nofault (s_w s) m Hf Hd) as [w' [Hs [F1 [F2 [F3 F4]]]]].
+  rewrite Hs in D, E. cbn [fst snd lift_e] in D, E. subst r. rewrite E.
+  split; [reflexivity|]. split; [exists m1; auto|].
+  split; [|auto]. rewrite B. destruct (must_cache m); [reflexivity|]. symmetry. apply Hc. reflexivity.
+Qed.
+Print Assumptions create_idempotent.
+
+(* ---------------------------------------------------------------- examples *)
+
+Example create_refused_ex :
+  snd (step_fg hk0 7%N sx1 (OCreate st_asy [fd_u])) = RUnit (Err EExtension) /\
+  snd (step_fg hk0 7%N sx1 (OCreate default_settings [])) = RUnit (Err EFieldDesc) /\
+  snd (step_fg hk0 8%N sx2 (OCreate default_settings [fd_u])) = RUnit (Err EStructure).
+Proof. split; [vm_lhs|]. split; vm_lhs. Qed.
+
+(* the struct shape is 8 now; the collection was written with shape 7 *)
+Example structure_changed_ex :
+  exists sf, h_mem (s_h sx2) = None /\ d_dir (w_disk (s_w sx2)) = true /\
+    d_schema (w_disk (s_w sx2)) = Some (SOk sf) /\ sf_shape sf <> 8%N.
+Proof.
+  eexists. split; [vm_lhs|]. split; [vm_lhs|]. split; [vm_lhs|]. cbn. discriminate.
+Qed.
+
+(* without the directory the guard is not reached: ENotFound, and Create builds a new schema *)
+Example structure_changed_needs_dir :
+  let s := mk new_handle {| w_disk := {| d_dir := false; d_schema := d_schema (w_disk (s_w sx2));
+                                         d_files := []; d_other := [] |};
+                            w_fail := None; w_fired := false; w_crash := false; w_dead := false; w_log := [] |} in
+  snd (step_fg hk0 8%N s OCount) = RNum (Err ENotFound).
+Proof. intros s. vm_lhs. Qed.
+
+(* the counter is recomputed on load: after the newest object is deleted its id is handed out
+   again by the next handle (here id 1, first to uuid 2, then to uuid 3) *)
+Example reload_reuses_oid :
+  option_map (fun m => oi_next (m_idx m)) (h_mem (s_h (run hk0 7%N sx1 [OInsert 0 2 (ob 6); ODelete 2]))) = Some 2%N /\
+  option_map (fun m => (oi_next (m_idx m), oi_ids (m_idx m)))
+    (h_mem (s_h (run hk0 7%N sx1 [OInsert 0 2 (ob 6); ODelete 2; OReopen; OInsert 0 3 (ob 7)])))
+  = Some (2%N, [(0%N, 1%N); (1%N, 3%N)]).
+Proof. split; vm_lhs. Qed.
+
+Example create_idempotent_ex :
+  exists m, h_mem (s_h sx1) = Some m /\ (must_cache m = false -> h_cache (s_h sx1) = []) /\
+    w_fail (s_w sx1) = None /\ w_dead (s_w sx1) = false /\
+    m_set m = default_settings /\ m_fields m = [fd_u] /\
+    snd (step_fg hk0 7%N sx1 (OCreate default_settings [fd_u])) = RUnit (Ok tt).
+Proof.
+  eexists. split; [vm_lhs|]. split; [intros _; vm_lhs|]. split; [vm_lhs|]. split; [vm_lhs|].
+  split; [vm_lhs|]. split; vm_lhs.
+Qed.
+
+(* FINDING: Create re-issued with the (unchanged) asynchronous settings resets routineStarted,
+   so the next call starts one more flusher; the previous one keeps running *)
+Example create_again_duplicates_flusher :
+  h_fl (s_h sz2) = [(0%Z, false)] /\
+  h_fl (s_h (run hk0 7%N sz2 [OCreate st_asy [fd_u]; OCount])) = [(0%Z, false); (0%Z, false)] /\
+  h_fl (s_h (run hk0 7%N sz2 [OCreate st_asy [fd_u]; OCount; OCreate st_asy [fd_u]; OCount; OTick]))
+  = [(1%Z, false); (1%Z, false); (1%Z, false)].
+Proof. split; [vm_lhs|]. split; vm_lhs. Qed.
